@@ -119,7 +119,7 @@ def run(pid, tier, seed, replay=None):
     notes = {}
 
     def validate(trace, label):
-        res = core.validate_trace('Trace_Decoder', trace, wd, consts, shards=10, timeout=3000)
+        res = core.validate_trace('Trace_Decoder', trace, wd, consts, shards=8, timeout=3000)
         events = load_events(trace)
         v, spec_errs = classify(res, events, pid)
         if spec_errs:
@@ -155,8 +155,8 @@ def run(pid, tier, seed, replay=None):
         return core.finish(pid, violations, known_hit, wd)
 
     # 1. model checking of the spec + input enumeration
-    cutmode = 'all' if (tier == 'thorough' or pid in ('C03', 'C01', 'C07')) else 'edges'
-    mc = mc_inputs(tier if pid != 'C01' or tier == 'quick' else tier, wd, cutmode)
+    cutmode = 'all' if tier == 'thorough' else 'edges'
+    mc = mc_inputs(tier, wd, cutmode)
     stats['generated'] += mc['generated']
     stats['distinct'] += mc['distinct']
     if mc['violated']:
